@@ -69,6 +69,9 @@ func (e *Env) progress() int {
 
 type api struct{ e *Env }
 
+// errTransient is what a failed request returns (network error, FLOOD_WAIT, …: not CHANNEL_PRIVATE).
+var errTransient = fmt.Errorf("rpc error: transient failure injected by the harness")
+
 func (a api) UpdatesGetState(context.Context) (*tg.UpdatesState, error) {
 	a.e.W.mu.Lock()
 	p, q := a.e.W.serverState()
@@ -85,13 +88,19 @@ func (a api) UpdatesGetDifference(_ context.Context, r *tg.UpdatesGetDifferenceR
 		return &tg.UpdatesDifferenceEmpty{Date: Date0, Seq: 0}, nil
 	}
 	a.e.record(Event{Kind: "A", Key: "diff", Vals: []int{r.Pts, r.Qts}}, Snapshot{})
-	return a.e.W.commonDifference(r.Pts, r.Qts), nil
+	if d := a.e.W.commonDifference(r.Pts, r.Qts); d != nil {
+		return d, nil
+	}
+	return nil, errTransient
 }
 
 func (a api) UpdatesGetChannelDifference(_ context.Context, r *tg.UpdatesGetChannelDifferenceRequest) (tg.UpdatesChannelDifferenceClass, error) {
 	c := r.Channel.(*tg.InputChannel).ChannelID
 	a.e.record(Event{Kind: "A", Key: "chdiff" + strconv.FormatInt(c, 10), Vals: []int{r.Pts}}, Snapshot{})
-	return a.e.W.channelDifference(c, r.Pts), nil
+	if d := a.e.W.channelDifference(c, r.Pts); d != nil {
+		return d, nil
+	}
+	return nil, errTransient
 }
 
 // --- telegram.UpdateHandler
